@@ -158,7 +158,7 @@ def leaf_text(leaf: dict, num: int, long_cmd: str = "Slow", quick_cmd: str = "Qu
 def valid_leaf(leaf) -> bool:
     if not isinstance(leaf, dict) or leaf.get("k") not in ("mark", "quick", "slow", "wait", "blank", "comment"):
         return False
-    if leaf["k"] == "slow" and not (isinstance(leaf.get("n"), int) and 1 <= leaf["n"] <= 4):
+    if leaf["k"] == "slow" and not (isinstance(leaf.get("n"), int) and 1 <= leaf["n"] <= 9):
         return False
     if leaf["k"] == "wait" and not (isinstance(leaf.get("d"), (int, float)) and 0 <= leaf["d"] <= 1.5):
         return False
@@ -579,7 +579,7 @@ def run_script(lines0, traj, ops, *, edit_cmds=("Slow", "Quick"), inj_cmds=("Slo
             quiet = 0 if busy else quiet + 1
             prev_ms = cur_ms
         res.update(events=list(h.events), final_lines=lines, final_ms=ms_sets(h.method_state()), n_ticks=t - 1,
-                   quiet=quiet >= quiet_need, final_state=prev_state,
+                   quiet=quiet >= quiet_need, final_state=prev_state, final_status=str(h.tagv("Method Status")),
                    cmds_left=sorted(h.uod.command_instances.keys()),
                    error_events=[e for e in h.events if e[1] == "method_error"])
     finally:
